@@ -36,7 +36,9 @@ CONSTANTS N, MaxT, NEVER,
           MaxNested,     \* nested operations per cycle
           NestedKinds,   \* kinds of operation a callback may perform
           TopKinds,      \* kinds of operation between cycles
-          Mut,           \* "" = the code as it is; otherwise a deliberately wrong variant (shows that the invariants can fail)
+          Mut,           \* "" = the code as it is; otherwise a deliberately wrong variant (shows that the invariants can fail):
+                         \*   F20 (no re-ask loop: Refines), due_lt (Terminates), tail_first (WellFormed, 4 nodes), walk_off (NoCrash),
+                         \*   rm_noresched (AggOK), inval_noprop (NeedyChain)
           RECORD,        \* TRUE: keep `last` (behaviour generation from a state-graph dump, tools/pathcover.py)
           EMIT           \* TRUE: print every transition as  %%T ## <JSON of the source state> ## <JSON of the step record>  (the record holds the
                          \*       target state): behaviour generation without `last` in the state - an order of magnitude fewer transitions for TLC
@@ -111,14 +113,14 @@ Prepend(s, p, c, l) ==
 
 RECURSIVE WalkTo(_, _, _, _)
 WalkTo(s, q, c, k) == IF q = NONE \/ k = 0 THEN NONE
-                      ELSE IF s.agg[q] < s.agg[c] THEN WalkTo(s, s.nxt[q], c, k - 1) ELSE q
+                      ELSE IF (IF Mut = "walk_off" THEN s.agg[q] <= s.agg[c] ELSE s.agg[q] < s.agg[c]) THEN WalkTo(s, s.nxt[q], c, k - 1) ELSE q
 
 InsertSched(s, p, c) ==
     LET f == s.first[p][SCHED] IN
     IF f = NONE THEN [s EXCEPT !.first[p][SCHED] = c, !.lastc[p][SCHED] = c]
     ELSE LET l   == s.lastc[p][SCHED]
              ref == IF Mut = "tail_first" THEN f ELSE l
-         IN IF l # NONE /\ s.agg[c] >= s.agg[ref]
+         IN IF l # NONE /\ (IF Mut = "walk_off" THEN s.agg[c] > s.agg[ref] ELSE s.agg[c] >= s.agg[ref])
             THEN [s EXCEPT !.prv[c] = l, !.nxt[l] = c, !.lastc[p][SCHED] = c]             \* shortcut: append to the tail
             ELSE LET q == WalkTo(s, f, c, N + 1) IN
                  IF q = NONE THEN [s EXCEPT !.crash = TRUE]                               \* the walk would run off the list (NULL dereference)
